@@ -243,7 +243,8 @@ def r10_table(rule, root=None):
                     rule.bad("build.rs|enumeration", "the generator's loops visit %d (start, end) pairs; the 24 directed edges of a cell are expected once each (missing: %s)" % (len(got), miss[:4]), A.where(BUILD, lp))
                 # the guard, for every mask: evaluated where it stands, so that lets naming its parts are honoured
                 wrong = None
-                for i in (0, 1, 2, 0x55, 0xAA, 0x0F, 0xF0, 0x69, 0x96, 0x80, 0x7F, 0xFE, 0xFF, 0x3C, 0x11):
+                masks_ = range(256) if getattr(getattr(rule, "ctx", None), "tier", "quick") == "thorough" else (0, 1, 2, 0x55, 0xAA, 0x0F, 0xF0, 0x69, 0x96, 0x80, 0x7F, 0xFE, 0xFF, 0x3C, 0x11)
+                for i in masks_:
                     seen_g = []
 
                     def ghook(node, interp, seen_g=seen_g):
@@ -671,7 +672,7 @@ def r12_collapsible(rule, root=None):
         # the test itself, folded: it must hold exactly when every listed corner's sign (bit of `mask`) differs from
         # the midpoint sign
         verdict = None
-        for mval in (0x00, 0xFF, 0x5A, 0xC3, 0x01, 0x80, 0x3C, 0x96):
+        for mval in (range(256) if getattr(getattr(rule, "ctx", None), "tier", "quick") == "thorough" else (0x00, 0xFF, 0x5A, 0xC3, 0x01, 0x80, 0x3C, 0x96)):
             for cv in (False, True):
                 env_ = dict(renv)
                 env_.update({"mask": mval, "center": cv})
